@@ -341,12 +341,16 @@ func (p *Provider) Handle(endpoint string, h Handler) {
 // Client returns a fresh *http.Client whose only transport is this provider.
 func (p *Provider) Client() *http.Client { return &http.Client{Transport: p} }
 
-// Log returns a copy of the request log.
+// Log returns a snapshot of the request log (entries are copies: safe to read while requests are still in flight).
 func (p *Provider) Log() []*Request {
 	p.mu.Lock()
 	defer p.mu.Unlock()
 	out := make([]*Request, len(p.log))
-	copy(out, p.log)
+	for i, e := range p.log {
+		c := *e
+		c.form = nil
+		out[i] = &c
+	}
 	return out
 }
 
